@@ -326,7 +326,7 @@ impl Group for C12Node {
          other payees) with distinct payment hashes and retries, restarts through KVVPersister<MemoryKVVStore> + Node::restore_node between any two \
          approvals; non-trivial = at least one approval, one refusal and one restart"
     }
-    fn budget(&self, tier: Tier) -> usize { if tier == Tier::Quick { 300 } else { 5000 } }
+    fn budget(&self, tier: Tier) -> usize { if tier == Tier::Quick { 800 } else { 6000 } }
     fn corpus(&self) -> Vec<Vec<String>> {
         vec!["n_new 1000 h|n_keysend 1000000 900|n_keysend 1000000 900|n_restart 1000 h|n_keysend 1000000 900|n_keysend 1000001 100|n_keysend 1000001 1"
             .split('|').map(|s| s.to_string()).collect(),
@@ -669,7 +669,7 @@ impl Group for C12Fee {
     fn rule(&self) -> &'static str {
         "fee: real Node with ManualClock and a fee velocity policy (Hourly/Daily, limits of a few thousand sat); each request is a          wallet-to-wallet transaction with the requested fee passed through Node::check_and_sign_onchain_tx; restarts through the real          persister between any two requests; non-trivial = at least one approval, one refusal and one restart"
     }
-    fn budget(&self, tier: Tier) -> usize { if tier == Tier::Quick { 40 } else { 800 } }
+    fn budget(&self, tier: Tier) -> usize { if tier == Tier::Quick { 200 } else { 1500 } }
     fn corpus(&self) -> Vec<Vec<String>> {
         vec!["f_new 5000000 d|f_onchain 1600000000 3000|f_restart 5000000 d|f_onchain 1600000100 3000|f_onchain 1600000200 1000"
             .split('|').map(|s| s.to_string()).collect(),
